@@ -231,7 +231,10 @@ func (in *inst) rewrite() {
 			if commNodes[n] {
 				return true
 			}
-			c.Replace(&ast.ExprStmt{X: in.call("Send", n.Chan, n.Value)})
+			// SendTo(ch)(v): the element type is inferred from the channel alone, so a value that is
+			// merely assignable to it (an untyped constant, a concrete type for an interface element)
+			// converts like in the original statement
+			c.Replace(&ast.ExprStmt{X: &ast.CallExpr{Fun: in.call("SendTo", n.Chan), Args: []ast.Expr{n.Value}}})
 			in.sites++
 		case *ast.UnaryExpr:
 			if n.Op != token.ARROW || commNodes[n] {
@@ -355,7 +358,7 @@ func (in *inst) selectStmt(s *ast.SelectStmt) ast.Stmt {
 		var bind ast.Stmt
 		switch c := cc.Comm.(type) {
 		case *ast.SendStmt:
-			decls = append(decls, &ast.AssignStmt{Lhs: []ast.Expr{cv}, Tok: token.DEFINE, Rhs: []ast.Expr{in.call("NewSend", c.Chan, c.Value)}})
+			decls = append(decls, &ast.AssignStmt{Lhs: []ast.Expr{cv}, Tok: token.DEFINE, Rhs: []ast.Expr{&ast.CallExpr{Fun: in.call("NewSendTo", c.Chan), Args: []ast.Expr{c.Value}}}})
 		case *ast.ExprStmt:
 			u := unparen(c.X).(*ast.UnaryExpr)
 			decls = append(decls, &ast.AssignStmt{Lhs: []ast.Expr{cv}, Tok: token.DEFINE, Rhs: []ast.Expr{in.call("NewRecv", u.X)}})
